@@ -30,7 +30,7 @@ IPRINTS = (-1, 0, 1, 7, 99, 100, 101, 1000)
 def floors(tier):
     return {"results_compared_with_fresh_baseline": 400, "schedules": 150, "context_switches": 800, "enumerated_schedules": 100,
             "line_level_schedules": 20, "line_events": 20000, "nested_runs": 15, "frozen_cases": 15, "iprint_runs": 100,
-            "double_restarts": 20, "hostile_user_runs": 20, "objective_switch_cases_in_which_the_filter_dropped_a_pair": 1, "__nontrivial__": 150}
+            "double_restarts": 20, "double_restarts_with_in_place_update_function": 5, "hostile_user_runs": 20, "objective_switch_cases_in_which_the_filter_dropped_a_pair": 1, "__nontrivial__": 150}
 
 
 def exhaustive(tier):
@@ -70,7 +70,7 @@ def cases(tier, seed):
     for i in range(48 if q else 600):
         cfg = small_cfg(rng, "callable")
         yield {"kind": "restart2", "problem": prob(6), "cfg": cfg, "scaler": gen.pick(rng, [None, 0.01, 3.0, "packaged"]),
-               "extra": int(rng.integers(1, 4)), "target_met": bool(i % 3 == 0)}
+               "extra": int(rng.integers(1, 4)), "target_met": bool(i % 3 == 0), "ufd_in_place": bool(i % 3 == 1)}
     for i in range(32 if q else 800):
         yield {"kind": "frozen", "problem": prob(6), "cfg": small_cfg(rng), "scaler": gen.pick(rng, [None, 0.5, 7.0, "packaged"])}
     for i in range(16 if q else 300):
@@ -152,9 +152,24 @@ def case_restart2(spec, out):
     if spec.get("target_met") and np.isfinite(ck.fun):
         c2["ftarget"] = float(ck.fun) + 1.0  # the checkpoint already meets the target: early return path
         c2.pop("scaler", None)
-    r1 = probes.run_min(P, c2, checkpoint=ck, x0=np.array(ck.x, copy=True))
+    hooks = {}
+    if spec.get("ufd_in_place") and not spec.get("target_met"):
+        # the objective gained a term t.x between the two runs: the update function adds its gradient IN PLACE to every array it is
+        # handed (current gradient and stored gradients) and returns them - whatever it is handed must be the run's own working
+        # copies, never the arrays of the caller's checkpoint
+        tvec = 0.01 * np.arange(1, P.n + 1, dtype=float)
+        out.count("double_restarts_with_in_place_update_function")
+
+        def ufd(x, f0, f0_old, grad, X, G):
+            grad += tvec
+            for gi in G:
+                gi += tvec
+            return f0 + float(tvec @ x), f0_old + (float(tvec @ X[-1]) if len(X) else float(tvec @ x)), grad, G
+
+        hooks["ufd"] = ufd
+    r1 = probes.run_min(P, c2, checkpoint=ck, x0=np.array(ck.x, copy=True), hooks=hooks)
     mid = fp()
-    r2 = probes.run_min(P, c2, checkpoint=ck, x0=np.array(ck.x, copy=True))
+    r2 = probes.run_min(P, c2, checkpoint=ck, x0=np.array(ck.x, copy=True), hooks=hooks)
     out.count("double_restarts")
     tags = dict(kind="restart2", scaler=str(spec["scaler"]))
     if mid != before:
